@@ -37,9 +37,10 @@ pub fn all() -> Vec<CheckDef> {
                 Family { enumerate: None, variant: "", name: "T1-two-owner-cascade", strategy: |_| templates::t1(), cases: |t| t.pick(4_000, 40_000) },
                 Family { enumerate: None, variant: "", name: "T4-upgrade-racing-cascade", strategy: |_| templates::t4(), cases: |t| t.pick(12_000, 120_000) },
                 Family { enumerate: None, variant: "", name: "T3-reader-on-chain-harris-unlink", strategy: |_| templates::t3(), cases: |t| t.pick(4_000, 40_000) },
+                Family { enumerate: None, variant: "", name: "saturation-leaked-clones-around-2^29", strategy: |_| crate::sat::leak_strategy(1), cases: |t| t.pick(6, 32) },
             ],
             exec: rcworld::exec,
-            rule: "free random API programs (2-4 threads, <=30 ops each, <=8 schedule directives) and choreography templates over the real library with a shadow ownership model; non-trivial = at least one object destructed, at least one Rc obtained by something other than new, and at least two context switches; distinct = distinct hash of the case",
+            rule: "free random API programs (2-4 threads, <=30 ops each, <=8 schedule directives) and choreography templates over the real library with a shadow ownership model; non-trivial = at least one object destructed, at least one Rc obtained by something other than new, and at least two context switches (saturation family: every case); distinct = distinct hash of the case",
             timeout_s: t60,
             assumptions: vec![ASSUME_SC, ASSUME_HOOKS],
             shards: s16,
@@ -159,6 +160,7 @@ pub fn all() -> Vec<CheckDef> {
                 Family { enumerate: None, variant: "", name: "T2-upgrade-vs-last-drop", strategy: |_| templates::t2(), cases: |t| t.pick(12_000, 120_000) },
                 Family { enumerate: None, variant: "", name: "T4-upgrade-racing-cascade", strategy: |_| templates::t4(), cases: |t| t.pick(16_000, 160_000) },
                 Family { enumerate: None, variant: "", name: "T6-zero-weak-recount", strategy: |_| templates::t6(), cases: |t| t.pick(4_000, 40_000) },
+                Family { enumerate: None, variant: "", name: "saturation-leaked-weak-clones-around-2^29", strategy: |_| crate::sat::leak_strategy(2), cases: |t| t.pick(6, 32) },
             ],
             exec: rcworld::exec,
             rule: "programs with Weak::upgrade / WeakSnapshot::upgrade around the destruction of their object; non-trivial = the case contains a successful and a failed upgrade, or an upgrade during which another thread took steps; distinct = distinct hash of the case",
@@ -237,9 +239,10 @@ pub fn all() -> Vec<CheckDef> {
                     strategy: |t| rcgen::seq_case(rcgen::W_BULK, t.pick(40, 80)),
                     cases: |t| t.pick(20_000, 200_000),
                 },
+                Family { enumerate: None, variant: "", name: "saturation-iterator-with-huge-count", strategy: |_| crate::sat::iter_strategy(), cases: |t| t.pick(2_000, 20_000) },
             ],
             exec: seq::exec_c10,
-            rule: "(1) one bulk constructor per case: new_many::<N> (N in 0,1,2,3,4,7,16), new_many_iter(count 0..40) with every consumed prefix then drop or abort, weak_many::<N> on fresh/shared/already-weaked/null receivers, owners released in a generated order with collection rounds in between; counts, pointer identity, liveness while owned, destruct+free exactly once after the last owner; (2) sequential programs mixing bulk constructors with other ops under the shadow model. Non-trivial = N (count) >= 2 or == 0 for (1), at least one bulk-constructed object for (2); distinct = distinct hash of the case",
+            rule: "(1) one bulk constructor per case: new_many::<N> (N in 0,1,2,3,4,7,16), new_many_iter(count 0..40) with every consumed prefix then drop or abort, weak_many::<N> on fresh/shared/already-weaked/null receivers, owners released in a generated order with collection rounds in between; counts, pointer identity, liveness while owned, destruct+free exactly once after the last owner; (1b) new_many_iter with counts 2^k+d for k up to 64 (around the 29-bit field width and the u32/usize truncation points), up to 4 shares taken: exact behaviour or a clean rejection by panic; (2) sequential programs mixing bulk constructors with other ops under the shadow model. Non-trivial = N (count) >= 2 or == 0 for (1), at least one bulk-constructed object for (2); distinct = distinct hash of the case",
             timeout_s: t60,
             assumptions: vec![ASSUME_HOOKS],
             shards: s16,
